@@ -47,8 +47,9 @@ example : run1 (mkCurve (natFld 23) 1 1) Gen.ecpDblJ .n (3, 10, 1) = (17, 21, 20
     get3 ((Gen.ecpDblAJ sc sa sk).run (natFld 23) (put2 (base (mkCurve (natFld 23) 1 1)) sa (3, 10))).1 sc
       = (17, 21, 20) := by decide
 /-- … and the shape: two tests, then exactly 20 instructions -/
-example : ∃ is, Gen.ecpDblJ 2 5 11 = .ifz 7 (.seq (.zero 4) (.ret true))
-    (.ifz 6 (.seq (.zero 4) (.ret true)) (Prog.block is (.ret true))) ∧ is.length = 20 := ⟨_, rfl, rfl⟩
+example : ∃ is, Gen.ecpDblJ 2 5 11 = .ifz 7 (Prog.block [.one 2, .one 3, .zero 4] (.ret true))
+    (.ifz 6 (Prog.block [.one 2, .one 3, .zero 4] (.ret true)) (Prog.block is (.ret true))) ∧ is.length = 20 :=
+  ⟨_, rfl, rfl⟩
 example : ∃ is, Gen.ecpTplJ 2 5 11 = Prog.block is (.ret true) ∧ is.length = 47 := ⟨_, rfl, rfl⟩
 example : ∃ is, Gen.ecpTplJA3 2 5 11 = Prog.block is (.ret true) ∧ is.length = 44 := ⟨_, rfl, rfl⟩
 
@@ -63,7 +64,7 @@ theorem gen_ecpSubAJ : Gen.ecpSubAJ = ecpSubAJ := rfl
     (also with `c == a`); `P + (-P) = O`; `P - 2P`; mixed addition -/
 example : run2 (mkCurve (natFld 23) 1 1) Gen.ecpAddJ .n (3, 10, 1) (7, 12, 1) = (20, 7, 8) ∧
     run2 (mkCurve (natFld 23) 1 1) Gen.ecpAddJ .ca (3, 10, 1) (3, 10, 1) = (17, 21, 20) ∧
-    run2 (mkCurve (natFld 23) 1 1) Gen.ecpAddJ .n (3, 10, 1) (3, 13, 1) = (0, 0, 0) ∧
+    run2 (mkCurve (natFld 23) 1 1) Gen.ecpAddJ .n (3, 10, 1) (3, 13, 1) = (1, 1, 0) ∧
     run2 (mkCurve (natFld 23) 1 1) Gen.ecpSubJ .n (3, 10, 1) (7, 12, 1) = (8, 9, 8) ∧
     run2A (mkCurve (natFld 23) 1 1) Gen.ecpAddAJ .n (3, 10, 1) (7, 12) = (5, 21, 4) ∧
     run2A (mkCurve (natFld 23) 1 1) Gen.ecpAddAJ .n (3, 10, 1) (3, 10) = (17, 21, 20) ∧
